@@ -31,7 +31,8 @@ import (
 )
 
 type vfEEv struct {
-	kind  string // g ka rv c ct cd r x l t
+	kind  string // g ka rv c ct cd r x l t | j = a foreign client puts key pfx = val (no lease); only at the head of a trace
+	val   string
 	pfx   string
 	L     int64
 	ttl   int
@@ -65,6 +66,8 @@ func (tr *vfETrace) opLine(idx int) string {
 			fmt.Fprintf(&sb, "g:%d:%d", ev.L, ev.ttl)
 		case "ka", "rv":
 			fmt.Fprintf(&sb, "%s:%d", ev.kind, ev.L)
+		case "j":
+			fmt.Fprintf(&sb, "j:%s:%s", vfutil.HexS(ev.pfx), vfutil.HexS(ev.val))
 		case "t":
 			fmt.Fprintf(&sb, "t:%d", ev.delta)
 		case "l":
@@ -122,6 +125,19 @@ func vfEParse(line string) (*vfETrace, error) {
 			ev.delta = num(p[1])
 		case p[0] == "l" && len(p) == 2:
 			ev.pfx = string(vfutil.UnHex(p[1]))
+		case p[0] == "j" && len(p) == 3:
+			ev.pfx, ev.val = string(vfutil.UnHex(p[1])), string(vfutil.UnHex(p[2]))
+			if len(tr.evs) > 0 && tr.evs[len(tr.evs)-1].kind != "j" {
+				return nil, fmt.Errorf("junk event %q not at the head of the trace", tok)
+			}
+			for _, e := range tr.evs {
+				if e.pfx == ev.pfx {
+					return nil, fmt.Errorf("junk key %q twice", tok)
+				}
+			}
+			if ev.pfx == "" || ev.pfx == "\x00" {
+				return nil, fmt.Errorf("junk key %q is not a key an etcd server holds", tok)
+			}
 		case (p[0] == "c" || p[0] == "ct" || p[0] == "cd" || p[0] == "r" || p[0] == "x") && len(p) == 4:
 			ev.pfx, ev.L, ev.fault = string(vfutil.UnHex(p[1])), num(p[2]), int(num(p[3]))
 		default:
@@ -376,6 +392,9 @@ func (rn *vfERunner) runTrace(tr *vfETrace, src string) {
 		out := "-"
 		pre := st.snapshot()
 		switch ev.kind {
+		case "j": // a key somebody else wrote (no lease), there before any session of the trace: one new revision
+			st.putForeign(ev.pfx, ev.val)
+			s.Count("etcd_ev_junk_key")
 		case "t":
 			st.tick(ev.delta)
 			s.Count("etcd_ev_tick")
@@ -614,6 +633,22 @@ func vfEGen(r *vfutil.Rand) *vfETrace {
 	}
 	if r.Chance(1, 25) { // keys of two prefixes that collide ("k/1"+"f" = "k/"+"1f"): correspondence only
 		pfxs = []string{"k/", "k/1", "k/f"}
+	}
+	// foreign junk that is there before any session: under an election prefix (sorts anywhere: "0…", "zz") or elsewhere;
+	// never a name of the form <prefix><hex of a lease of the trace> (the server grants a lease id once: assumption)
+	if r.Chance(1, 4) {
+		seen := map[string]bool{}
+		for j := r.Range(1, 2); j > 0; j-- {
+			k := vfutil.Pick(r, pfxs) + vfutil.Pick(r, []string{"zz", "0-", "junk/x", "~"})
+			if r.Chance(1, 4) {
+				k = vfutil.Pick(r, []string{"other/key", "j", "redis-gunyu/g1/registry/x"})
+			}
+			if seen[k] {
+				continue
+			}
+			seen[k] = true
+			tr.evs = append(tr.evs, vfEEv{kind: "j", pfx: k, val: vfutil.Pick(r, []string{"x", "", "10.0.0.9:18001"})})
+		}
 	}
 	granted := map[int64]bool{}
 	dl := map[int64]int64{}
